@@ -58,7 +58,7 @@ def runStr (e : Ty) (nregs : Nat) (ops : List (SetOp Payload)) : String :=
   " ".intercalate (outs ++ ["|"] ++ regs)
 
 def setValStr (vs : List Value) : String :=
-  match Value.setVal vs with
+  match Value.mkSetVal vs with
   | .ok v =>
     let it : Res (List Payload) := match v.ty, v.v.unmark1 with
       | .set e, .sset _ ms => Value.setIter e ms
@@ -78,7 +78,7 @@ def handleSetRules : Handler := fun op args =>
   | "hash.bytes", [v] => do pure (resTag HSetRules.bytesStr (Value.hashBytes (← Value.ofSexp v)))
   | "hash.crc", [v] => do pure (resTag (fun (i : Int) => toString i) (Value.hash (← Value.ofSexp v)))
   | "op.rawequals", [a, b] => do
-    pure (resTag (fun b => toString (Sexp.encBool b)) (Value.rawEquals (← Value.ofSexp a) (← Value.ofSexp b)))
+    pure (resTag (fun b => toString (Sexp.encBool b)) (Value.rawEq (← Value.ofSexp a) (← Value.ofSexp b)))
   | "setval", vs => do pure (HSetRules.setValStr (← vs.mapM Value.ofSexp))
   | "vset.run", ety :: n :: ops => do
     pure (HSetRules.runStr (← Ty.ofSexp ety) (← Sexp.decNat n) (← ops.mapM HSetRules.decOp))
